@@ -7,7 +7,8 @@ COQ_IMPORTS = S.COQ_IMPORTS
 RULE = ('cases: fault-free transactions over pairs of local and peer capabilities (max-APDU in the six standard sizes, max-segments '
         '{unspecified,2,4,...,64,>64}, the four segmentation values on each side, proposed windows {1,2,8,127}, peer data known from '
         'I-Am / unknown / out of date, max-NPDU known or not) with request and response lengths around every boundary these induce; a '
-        'raw peer proposing / acknowledging windows 0, 1, 2, 127, 128, 200, 255.  Compared: the whole canonical trace, which '
+        'raw peer proposing / acknowledging windows 0, 1, 2, 127, 128, 200, 255; a raw peer that acknowledges a segmented response (or request) '
+        'of a real node with a window that changes from ack to ack (1..8, shrinking and growing), acknowledging a number still inside the new window.  Compared: the whole canonical trace, which '
         'includes the encoded length of every APDU, the segmentation flags and the window fields.  non-trivial = at least one frame; '
         'distinct by scenario.')
 TRUSTED = S.TRUSTED
@@ -20,6 +21,8 @@ def cases(rng, tier):
         out.append(S.scenario_case(S.gen_capability(rng, big=(tier == 'thorough' or i % 6 == 0)), 'capability'))
     for _ in range(400 if tier == 'thorough' else 80):
         out.append(S.scenario_case(S.gen_forged_window(rng), 'forged-window'))
+    for _ in range(300 if tier == 'thorough' else 60):
+        out.append(S.scenario_case(S.gen_scripted_windows(rng), 'scripted-windows'))
     return out
 
 
@@ -27,8 +30,9 @@ def direct(rng, tier, focus=()):
     big = tier == 'thorough'
     fams = [('capability', lambda r: S.gen_capability(r), 100000 if big else 4000),
             ('forged-window', lambda r: S.gen_forged_window(r), 3000 if big else 300),
+            ('scripted-windows', lambda r: S.gen_scripted_windows(r), 2000 if big else 200),
             ('transaction', lambda r: S.gen_transaction(r, big=r.random() < 0.2), 10000 if big else 1000)]
-    failures, stats = S.direct_families(rng, fams, S.check_c12, focus)
+    failures, stats = S.direct_families(rng, fams, lambda tr: S.check_c12(tr) + [x for x in S.check_c05(tr) if x['kind'] == 'window-exceeded'], focus)
     failures.extend(S.known_replays('C12', S.check_c12))
     return failures, stats
 
